@@ -1,6 +1,6 @@
 SPECIFICATION Spec
 CONSTANTS
   MaxKeys = 2
-  KeyCols = {"name", "size", "modified", "length(name)", "ext", "uid", "length(name) * 4"}
+  KeyCols = {"name", "size", "modified", "length(name)", "ext", "uid", "blocks", "length(name) * 4"}
   WorldSel = {1, 2}
 INVARIANTS EmitWorld Emit
